@@ -62,8 +62,13 @@ def normMd : Option (List Md) → Option (List Md)
   | none => none
   | some l => if l.all (fun m => m.isEmpty) then none else some l
 
-/-- Python `sorted` on strings (code-point order) -/
-def sortIds (l : List Id) : List Id := l.mergeSort (fun a b => decide (a ≤ b))
+/-- Python `sorted` on strings (code-point order); the keys are distinct, so any correct sorting
+algorithm returns this list (insertion sort here: structural, evaluates inside the kernel) -/
+def insertId (a : Id) : List Id → List Id
+  | [] => [a]
+  | b :: bs => if a ≤ b then a :: b :: bs else b :: insertId a bs
+
+def sortIds (l : List Id) : List Id := l.foldr insertId []
 
 /-! ### oriented view -/
 
